@@ -3,7 +3,7 @@
 From Coq Require Import String.
 From Coq Require Import List Arith ZArith.
 Import ListNotations.
-From YP Require Import Base.Str Term.Term Unify.Unify Unify.Mgu Unify.Rename Unify.Base Unify.UnifyGen.
+From YP Require Import Base.Str Term.Term Unify.Unify Unify.Mgu Unify.Rename Unify.Base Unify.UnifyGen Unify.LateStart Unify.RunUnifySched Unify.SchedSpec.
 
 (* "started under any stack of already active bindings" = any acyclic store s (wf s);
    "at the yield both terms dereference to the same term": den s' t1 = den s' t2 where
@@ -92,6 +92,150 @@ Theorem C02_generator_is_unify : forall n h t1 t2, wf h ->
   (unify n h t1 t2 = UFail -> exists g1, next n h (mk_unify h t1 t2) = Some (h, g1, false)).
 Proof. exact unify_gen_matches_unify. Qed.
 Print Assumptions C02_generator_is_unify.
+
+(* ---- creation and start are different moments ------------------------------------------------
+   unify(t1,t2) is CALLED under the bindings h (mk_unify h t1 t2: both sides are dereferenced, the
+   dispatch is done) and the object it returns is STARTED (first next) under the bindings h' - after
+   other unifications have been created, started, advanced or closed.  Variable.unify dereferences its
+   argument again when it starts, unify_arrays dereferences its elements when it starts. *)
+
+(* structural: the first next under h' is the store-passing algorithm under h' on the two
+   creation-time values (h, h' arbitrary, not related) *)
+Theorem C02_late_start_is_unify : forall n h h' t1 t2, wf h' ->
+  (forall s', unify n h' (fst (start_pair h t1 t2)) (snd (start_pair h t1 t2)) = UOk s' ->
+     exists g1, next (S (S n)) h' (mk_unify h t1 t2) = Some (s', g1, true) /\ fst (close s' g1) = h') /\
+  (unify n h' (fst (start_pair h t1 t2)) (snd (start_pair h t1 t2)) = UFail ->
+     exists g1, next (S (S n)) h' (mk_unify h t1 t2) = Some (h', g1, false)).
+Proof. exact late_start_matches_unify. Qed.
+Print Assumptions C02_late_start_is_unify.
+
+(* "started under any stack of already active bindings": the bindings of the call are still active at
+   the start (h' extends h); whatever happened in between, if t1 and t2 are unifiable relative to h' the
+   first next yields, both terms dereference to the same term, the bindings are a most general unifier
+   relative to the bindings current AT THAT FIRST NEXT (every unifier is an instance: nothing is bound
+   that need not be), no cycle, and closing gives back h' *)
+Theorem C02_late_start_mgu : forall h h' t1 t2 th, wf h -> wf h' -> ext h h' -> sat th h' -> app th t1 = app th t2 ->
+  exists n hf g1, next n h' (mk_unify h t1 t2) = Some (hf, g1, true) /\
+    wf hf /\ ext h' hf /\ den hf t1 = den hf t2 /\
+    (forall th', sat th' h' -> app th' t1 = app th' t2 -> sat th' hf) /\
+    fst (close hf g1) = h'.
+Proof. exact late_start_mgu. Qed.
+Print Assumptions C02_late_start_mgu.
+
+(* ... and if it does not yield, nothing is bound and there is no unifier *)
+Theorem C02_late_start_fail : forall n h h' t1 t2 hf g1, wf h -> wf h' -> ext h h' ->
+  next n h' (mk_unify h t1 t2) = Some (hf, g1, false) ->
+  hf = h' /\ forall th, sat th h' -> app th t1 <> app th t2.
+Proof. exact late_start_fail. Qed.
+Print Assumptions C02_late_start_fail.
+
+(* without any relation between h and h' (the bindings of the call were undone before the start): the
+   same for the two creation-time values den h t1, den h t2 *)
+Theorem C02_late_start_snapshot_mgu : forall h h' t1 t2 th, wf h' -> sat th h' ->
+  app th (den h t1) = app th (den h t2) ->
+  exists n hf g1, next n h' (mk_unify h t1 t2) = Some (hf, g1, true) /\
+    wf hf /\ ext h' hf /\ den hf (den h t1) = den hf (den h t2) /\
+    (forall th', sat th' h' -> app th' (den h t1) = app th' (den h t2) -> sat th' hf) /\
+    fst (close hf g1) = h'.
+Proof. exact late_start_snapshot_mgu. Qed.
+Print Assumptions C02_late_start_snapshot_mgu.
+
+Theorem C02_late_start_snapshot_fail : forall n h h' t1 t2 hf g1, wf h' ->
+  next n h' (mk_unify h t1 t2) = Some (hf, g1, false) ->
+  hf = h' /\ forall th, sat th h' -> app th (den h t1) <> app th (den h t2).
+Proof. exact late_start_snapshot_fail. Qed.
+Print Assumptions C02_late_start_snapshot_fail.
+
+(* "The outcome is the same for unify(t2,t1)", late start *)
+Theorem C02_late_start_sym : forall h h' t1 t2 n hf g1, wf h -> wf h' -> ext h h' ->
+  next n h' (mk_unify h t1 t2) = Some (hf, g1, true) -> wf hf -> den hf t1 = den hf t2 ->
+  exists m hf' g1', next m h' (mk_unify h t2 t1) = Some (hf', g1', true) /\ wf hf' /\ den hf' t1 = den hf' t2 /\
+    sat (sub_of hf) hf'.
+Proof. exact late_start_sym. Qed.
+Print Assumptions C02_late_start_sym.
+
+(* "yields at most once", late start: any sequence of next / close on an object created under h and
+   driven from h' *)
+Theorem C02_late_drive_restores : forall n h h' t1 t2 ops hf gf ys,
+  drive n h' (mk_unify h t1 t2) ops = Some (hf, gf, ys) ->
+  fst (close hf gf) = h' /\ count_true ys <= 1 /\
+  (forall m h2 g2, next m hf gf = Some (h2, g2, false) -> h2 = h').
+Proof. exact late_drive_restores. Qed.
+Print Assumptions C02_late_drive_restores.
+
+(* "all stacks of earlier, still active unifications": the bindings at the top of a stack are a most
+   general unifier of ALL the equations of the stack together (the check's intrinsic oracle compares
+   the implementation's bindings with an independently computed mgu of the active equations) *)
+Theorem C02_stack_mgu : forall fuel stk s0 s, wf s0 -> stack fuel s0 stk = UOk s ->
+  wf s /\ ext s0 s /\ (forall a b, In (a, b) stk -> den s a = den s b) /\
+  (forall th, sat th s0 -> unifies th stk -> sat th s).
+Proof. exact stack_mgu. Qed.
+Print Assumptions C02_stack_mgu.
+
+Theorem C02_stack_fail_no_unifier : forall fuel stk s0, wf s0 -> stack fuel s0 stk = UFail ->
+  forall th, sat th s0 -> ~ unifies th stk.
+Proof. exact stack_fail_no_unifier. Qed.
+Print Assumptions C02_stack_fail_no_unifier.
+
+(* what the check evaluates for its event sequences is the generator model these theorems are about *)
+Theorem C02_run_events_is_generator_model : forall fuel evs nvars,
+  run_events_x fuel evs nvars = run_events fuel evs nvars.
+Proof. exact run_events_x_eq. Qed.
+Print Assumptions C02_run_events_is_generator_model.
+
+(* ---- the schedule theorem ----------------------------------------------------------------------
+   exec = the event runner on generator objects (the call unify(..) = mk_unify, __next__ = next, close()/drop =
+   close, any number of objects, events in any order); srun = the SPECIFICATION of the same events by the
+   store-passing algorithm alone (Unify/SchedSpec.v): a stack of active unifications, starting an object =
+   Unify.unify under the bindings of THAT moment on the two terms as dereferenced at the call, exhausting /
+   closing the top one = back to the bindings before its start; undefined outside the property's domain (a
+   start needing a cyclic term, an active generator used out of stack order, next on an object closed before
+   it was started).  Wherever the specification is defined, the generator objects - with whatever fuel they
+   return a value - yield exactly when it says, and the bindings after EVERY event are its bindings. *)
+Theorem C02_sched_refines : forall n m evs tr tr',
+  srun n [] [] [] evs = Some tr -> exec m [] [] evs = Some tr' -> tr' = tr_of tr.
+Proof. exact sched_refines. Qed.
+Print Assumptions C02_sched_refines.
+
+(* after every event of the specification the bindings are acyclic, equate the two sides of every ACTIVE
+   unification, and every substitution unifying the active equations is an instance of them: a most general
+   unifier of the equations of the active unifications, nothing bound that need not be *)
+Theorem C02_srun_mgu : forall n evs tr, srun n [] [] [] evs = Some tr ->
+  Forall (fun x => let h := snd (fst x) in let eqs := snd x in
+            wf h /\ (forall a b, In (a, b) eqs -> den h a = den h b) /\
+            (forall th, unifies th eqs -> sat th h)) tr.
+Proof. exact srun_mgu. Qed.
+Print Assumptions C02_srun_mgu.
+
+(* what the check's model evaluation prints for an event sequence (when it does not cut the case at a
+   cyclic binding) is the specification's trace *)
+Theorem C02_run_events_spec : forall fuel n nvars evs l tr,
+  run_events fuel evs nvars = otag "ok" [OL l] -> existsb is_cyc l = false ->
+  srun n [] [] [] evs = Some tr -> l = show_tr nvars (tr_of tr).
+Proof. exact run_events_spec. Qed.
+Print Assumptions C02_run_events_spec.
+
+Example C02_sched_nonvacuous :
+  let evs := [SCreate 0 (TVar 0) (TVar 1); SCreate 1 (TVar 1) (TVar 0); SNext 1; SNext 0; SClose 0; SClose 1] in
+  srun 5 [] [] [] evs = Some
+    [(false, [], []); (false, [], []);
+     (true, [(1, TVar 0)], [(TVar 1, TVar 0)]);
+     (true, [(1, TVar 0)], [(TVar 1, TVar 0); (TVar 0, TVar 1)]);
+     (false, [(1, TVar 0)], [(TVar 1, TVar 0)]);
+     (false, [], [])]
+  /\ exec 5 [] [] evs = Some [(false, []); (false, []); (true, [(1, TVar 0)]); (true, [(1, TVar 0)]); (false, [(1, TVar 0)]); (false, [])].
+Proof. exact srun_late_alias. Qed.
+
+(* non-vacuity of the late-start theorems: unify(X,Y) created under no binding and started after Y was
+   aliased to X (directly / through a chain) yields and binds nothing; started after X = f(Z), it binds Y *)
+Example C02_late_start_nonvacuous :
+  let h' := [(1, TVar 0)] in
+  wf h' /\ ext [] h' /\
+  next 5 h' (mk_unify [] (TVar 0) (TVar 1)) = Some (h', GVarSelf, true) /\
+  next 5 [(1, TVar 2); (2, TVar 0)] (mk_unify [] (TVar 0) (TVar 1)) = Some ([(1, TVar 2); (2, TVar 0)], GVarSelf, true) /\
+  next 5 [(0, TFun [102%N] [TVar 2])] (mk_unify [] (TVar 0) (TVar 1))
+    = Some ([(1, TFun [102%N] [TVar 2]); (0, TFun [102%N] [TVar 2])], GVarDeleg (GVarBound 1), true).
+Proof. exact late_start_alias. Qed.
 
 (* non-vacuity: a store with two active bindings is wf, and a unification under it succeeds *)
 Example C02_nonvacuous :
